@@ -41,6 +41,12 @@ add("C20", "exploration",
     "The expected answers are computed from the generated payload, not from the library.",
     "DESIGN.md section 4/C20")
 
+add("C07", "fault_enumeration",
+    "fault-injecting io::Write sinks (short writes, zero acceptance, Interrupted, hard error at every output offset) against the to_string reference",
+    "Fault enumeration: for each generated (value, printer options) the six print entry points are driven into instrumented sinks under generated short-write schedules, and a hard error is injected at EVERY byte offset 0..=len of the reference text (exhaustive per value). The sink's accumulated bytes must equal the reference, or be a prefix of it with the call returning Err. Default and customised-default printers are compared byte for byte.",
+    "Trusts to_string_custom as the reference text (its agreement with the parser is C01/C02). Interrupted results are only required not to lose bytes silently.",
+    "DESIGN.md section 4/C07")
+
 NOT_YET = {}
 
 def main():
